@@ -7,6 +7,7 @@ result = {"pipe": {"vals": [[kind, parts]...]} | {"exc"...},      detection item
           "q":    {"ok": query} | {"exc"...},                      C17Backend (decodable templates)
           "stock":{"ok": query} | {"exc"...}}                      unchanged TextQueryTestBackend
 """
+from impl.excname import exc_name
 from sigma.backends.test import TextQueryTestBackend
 from sigma.collection import SigmaCollection
 from sigma.exceptions import SigmaError
@@ -58,7 +59,7 @@ def enc_val(v):
 
 
 def exc(e):
-    return {"exc": type(e).__name__, "sigma": isinstance(e, SigmaError), "msg": str(e)[:300]}
+    return {"exc": exc_name(e), "sigma": isinstance(e, SigmaError), "msg": str(e)[:300]}
 
 
 def rule_dict(case):
